@@ -43,7 +43,7 @@ def plan(tier: str, seed: int):
                "args": {"mode": "optimum", "name": nm}, "timeout": 1800}
               for nm in names]
     nr = 3 if tier == "quick" else 14
-    per = 700 if tier == "quick" else 15000
+    per = 700 if tier == "quick" else 60000
     for i in range(nr):
         shards.append({"name": f"rnd{i}", "engine": "jit",
                        "args": {"mode": "random", "n": per},
